@@ -129,8 +129,9 @@ impl Pm {
   fn tokens(&self) -> String {
     let xm = self.xi_p.max(self.xi_s).max(self.xi_i);
     format!(
-      "{} xi_p={:.4} xi_s={:.4} xi_i={:.4} xi_max={:.4} xi_si={:.4} d_pm={:e} sigma={:e} cfg={}",
+      "{} thr={} xi_p={:.4} xi_s={:.4} xi_i={:.4} xi_max={:.4} xi_si={:.4} d_pm={:e} sigma={:e} cfg={}",
       self.meta.tokens(),
+      self.s.pump_spectrum_threshold,
       self.xi_p,
       self.xi_s,
       self.xi_i,
@@ -183,6 +184,25 @@ fn gen_pm(ctx: &mut Ctx, opts: &GenOpts) -> Option<Pm> {
     cfg["crystal"]["theta_deg"] = serde_json::json!("auto");
   }
   cfg["signal"]["waist_position_um"] = serde_json::json!("auto");
+  // the pump-spectrum threshold below which both spectra are cut to zero
+  let thr = *ctx.rng.pick(&[1e-2, 1e-2, 1e-4, 0.1, 0.25]);
+  cfg["pump"]["spectrum_threshold"] = serde_json::json!(thr);
+  make_pm(ctx, cfg, meta)
+}
+
+/// sources with a heralding efficiency close to one: short poled crystal, wide pump, small collection waists
+fn gen_high_eff(ctx: &mut Ctx) -> Option<Pm> {
+  let l = (ctx.rng.log_range(300.0, 2000.0)).round();
+  let wp = (ctx.rng.log_range(150.0, 400.0)).round();
+  let wc = (ctx.rng.log_range(25.0, 50.0)).round();
+  let thr = *ctx.rng.pick(&[1e-2, 1e-2, 1e-4, 0.1, 0.25]);
+  let bw = (ctx.rng.log_range(0.2, 5.0) * 100.0).round() / 100.0;
+  let mut cfg = d9_setup(wp, wc, wc, l);
+  cfg["idler"] = serde_json::json!("auto");
+  cfg["pump"]["bandwidth_nm"] = serde_json::json!(bw);
+  cfg["pump"]["spectrum_threshold"] = serde_json::json!(thr);
+  let mut meta = fixed_meta("KTP", "Type2_e_eo", true, l, wp, wc, wc);
+  meta.idler_explicit = false;
   make_pm(ctx, cfg, meta)
 }
 
@@ -202,13 +222,31 @@ fn ju(x: JSIUnits<f64>) -> f64 {
   *(x / JSIUnits::new(1.))
 }
 
-/// grid of frequency pairs inside the support: u along the pump (sum) direction within the envelope,
-/// v along the anti-diagonal through the main lobe and the first side lobes
+/// sum-frequency offsets (per photon, in units of the pump width σ) that probe the wings of the pump spectrum:
+/// the pump amplitude is α = exp(−(2u/σ)²); with threshold `thr` both spectra are cut where α < thr.  Offsets with
+/// α = thr^¾ (middle of the band thr ≤ α < √thr), α = 1.2·thr (just inside the contour) and α = thr/2 (beyond it).
+fn wing_offsets(thr: f64) -> Vec<f64> {
+  let mut v = Vec::new();
+  if thr > 0.0 && thr < 0.6 {
+    for alpha in [thr.powf(0.75), 1.2 * thr, 0.5 * thr] {
+      let u = 0.5 * (-alpha.ln()).sqrt();
+      v.push(u);
+      v.push(-u);
+    }
+  }
+  v
+}
+
+/// grid of frequency pairs inside the support: u along the pump (sum) direction — the core of the envelope plus
+/// the wings out to beyond the threshold contour —, v along the anti-diagonal through the main lobe and the first
+/// side lobes
 fn support_points(p: &Pm, nu: usize, nv: usize) -> Vec<(f64, f64, Frequency, Frequency)> {
   let (w0s, w0i) = (p.s.signal.frequency(), p.s.idler.frequency());
+  let mut us: Vec<f64> = (0..nu).map(|iu| if nu == 1 { 0.0 } else { -0.35 + 0.7 * (iu as f64) / ((nu - 1) as f64) }).collect();
+  us.extend(wing_offsets(p.s.pump_spectrum_threshold));
   let mut pts = Vec::new();
-  for iu in 0..nu {
-    let u = if nu == 1 { 0.0 } else { -0.35 + 0.7 * (iu as f64) / ((nu - 1) as f64) } * p.sigma;
+  for uu in us {
+    let u = uu * p.sigma;
     for iv in 0..nv {
       let t = if nv == 1 { 0.0 } else { -1.6 + 3.2 * (iv as f64) / ((nv - 1) as f64) };
       let v = t * p.d_pm;
@@ -336,17 +374,28 @@ fn pointwise(ctx: &mut Ctx, p: &Pm, integ: Integrator, nu: usize, nv: usize) {
     ctx.s("C08.pointwise", false, "pointwise/non-finite", &d);
   } else if negative {
     ctx.s("C08.pointwise", false, "pointwise/negative", &d);
-  } else if violation.is_some() {
-    ctx.s("C08.pointwise", false, "pointwise/jsi-exceeds-singles", &d);
+  } else if let Some((r, _, _)) = violation {
+    // coincidences where a singles intensity is exactly zero is a different failure from the D9 excess
+    let sig = if r.is_infinite() { "pointwise/coincidences-where-singles-vanish" } else { "pointwise/jsi-exceeds-singles" };
+    ctx.s("C08.pointwise", false, sig, &d);
   } else {
     ctx.s("C08.pointwise", true, "pointwise/ok", &d);
   }
 }
 
-fn rates(ctx: &mut Ctx, p: &Pm, integ: Integrator, n: usize) {
-  let name = integ_name(&integ);
+fn rates(ctx: &mut Ctx, p: &Pm, integ: Integrator, n: usize, wing: bool) {
+  let name = format!("{}{}", integ_name(&integ), if wing { "/wing-grid" } else { "" });
   let (w0s, w0i) = (p.s.signal.frequency(), p.s.idler.frequency());
-  let a = (1.3 * p.d_pm).min(2.0 * p.sigma) * RAD / S;
+  // core grid: the main lobe inside the pump envelope.  wing grid: a square whose corners lie 15 % beyond the pump
+  // threshold contour α = thr (α = exp(−(Δ_sum/σ)²)), so that with n = 7 the pairs with |x+y| = 4/3, 5/3 fall in
+  // the band thr ≤ α < √thr and the corners outside the support
+  let thr = p.s.pump_spectrum_threshold;
+  let a = if wing && thr > 0.0 && thr < 1.0 {
+    0.575 * p.sigma * (-thr.ln()).sqrt()
+  } else {
+    (1.3 * p.d_pm).min(2.0 * p.sigma)
+  } * RAD
+    / S;
   let range = FrequencySpace::new((w0s - a, w0s + a, n), (w0i - a, w0i + a, n));
   // JointSpectrum::new unwraps try_as_optimum of the setup (and of its swap): when no optimum exists that is C17/C04
   let buildable = guard(|| {
@@ -783,14 +832,32 @@ pub fn run(ctx: &mut Ctx) {
   let mut done = 0usize;
   let mut tries = 0usize;
   // the probed D9 input first
-  let mut fixed = vec![(d9_setup(30.0, 30.0, 30.0, 20000.0), fixed_meta("KTP", "Type2_e_eo", true, 20000.0, 30.0, 30.0, 30.0))];
+  let mut fixed = vec![(d9_setup(30.0, 30.0, 30.0, 20000.0), fixed_meta("KTP", "Type2_e_eo", true, 20000.0, 30.0, 30.0, 30.0), false)];
   if ctx.seed % 2 == 0 {
     // and the crate's test setup (passes)
-    fixed.push((d9_setup(200.0, 100.0, 100.0, 14000.0), fixed_meta("KTP", "Type2_e_eo", true, 14000.0, 200.0, 100.0, 100.0)));
+    fixed.push((d9_setup(200.0, 100.0, 100.0, 14000.0), fixed_meta("KTP", "Type2_e_eo", true, 14000.0, 200.0, 100.0, 100.0), false));
+  }
+  // near-unity heralding: ppKTP 0.5 mm 200/30 µm and 1 mm 300/40 µm, wide pump
+  for (l, wp, wc, bw) in [(500.0, 200.0, 30.0, 2.0), (1000.0, 300.0, 40.0, 1.0)] {
+    let mut cfg = d9_setup(wp, wc, wc, l);
+    cfg["idler"] = serde_json::json!("auto");
+    cfg["pump"]["bandwidth_nm"] = serde_json::json!(bw);
+    let mut m = fixed_meta("KTP", "Type2_e_eo", true, l, wp, wc, wc);
+    m.idler_explicit = false;
+    fixed.push((cfg, m, true));
   }
   while done < ctx.n && tries < ctx.n * 40 {
     tries += 1;
-    let p = if let Some((cfg, meta)) = fixed.pop() { make_pm(ctx, cfg, meta) } else { gen_pm(ctx, &opts) };
+    let mut high_eff = false;
+    let p = if let Some((cfg, meta, he)) = fixed.pop() {
+      high_eff = he;
+      make_pm(ctx, cfg, meta)
+    } else if !focus && tries % 5 == 0 {
+      high_eff = true;
+      gen_high_eff(ctx)
+    } else {
+      gen_pm(ctx, &opts)
+    };
     let p = match p {
       Some(p) => p,
       None => continue,
@@ -804,9 +871,14 @@ pub fn run(ctx: &mut Ctx) {
     ctx.count(&format!("xi_si/{}", if xm < 0.1 { "lt0.1" } else if xm < 0.5 { "0.1-0.5" } else if xm < 1.0 { "0.5-1" } else if xm < 3.0 { "1-3" } else { "gt3" }));
     pointwise(ctx, &p, Integrator::GaussLegendre { degree: 40 }, nu, nv);
     pointwise(ctx, &p, Integrator::Simpson { divs: 200 }, if ctx.thorough { nu } else { 1 }, if ctx.thorough { nv } else { 7 });
-    rates(ctx, &p, Integrator::GaussLegendre { degree: 40 }, if ctx.thorough { 8 } else { 5 });
+    rates(ctx, &p, Integrator::GaussLegendre { degree: 40 }, if ctx.thorough { 8 } else { 5 }, false);
+    rates(ctx, &p, Integrator::GaussLegendre { degree: 40 }, 7, true);
     if ctx.thorough && done % 4 == 0 {
-      rates(ctx, &p, Integrator::Simpson { divs: 200 }, 4);
+      rates(ctx, &p, Integrator::Simpson { divs: 200 }, 4, false);
+    }
+    if high_eff {
+      ctx.count("high-efficiency-setups");
+      rates(ctx, &p, Integrator::Simpson { divs: 200 }, 7, true);
     }
     singles_k(ctx, &p.s, p.s.signal.frequency(), p.s.idler.frequency());
   }
